@@ -17,7 +17,7 @@ RULE = ("trajectories of generated worlds (heterogeneous voltages, three-phase m
         "after each run every analysis function is recomputed in plain Python from the recorded rates, the scenario's voltages / "
         "phases / constraint dictionaries and the sessions; constraint subsets are requested in random order; non-trivial = "
         ">=2 distinct voltages and a subset query whose order differs from network order; distinct = history signature + query")
-PROBES = ["concurrent_callers", "thread_switches", "subset_reordered", "hetero_voltage", "nema_checked", "nema_zero_mean", "threshold_query", "unserved_session", "requery_after_update_constraint", "degenerate_subset_request",
+PROBES = ["concurrent_callers", "thread_switches", "subset_reordered", "hetero_voltage", "nema_checked", "nema_zero_mean", "threshold_query", "unserved_session", "requery_after_update_constraint", "requery_after_remove_constraint", "degenerate_subset_request",
           "magnitudes_flag_true", "complex_return", "refused_add_then_corrected"]
 FAULT_DIMENSION = "none - post-run oracle on recorded trajectories (crash+rerun only diversifies the trajectories)"
 ASSUMPTIONS = ["constraint currents are compared by magnitude (either complex or real return passes)",
@@ -149,8 +149,14 @@ def check(sc):
                 victim = r.choice(names[:-1]) if r.random() < 0.8 else names[-1]
                 fac = r.choice([2.0, 0.5, -1.0, 3.0])
                 by[victim]["coeffs"] = {k_: v_ * fac for k_, v_ in by[victim]["coeffs"].items()}
-                sim.network.update_constraint(victim, sut.Current(dict(by[victim]["coeffs"])), by[victim]["limit"] * 1.5)
-                names2 = [x for x in names if x != victim] + [victim]
+                if sub(sc["seed"], "requery_kind").random() < 0.4 and len(names) >= 2:
+                    # ... or withdraws it altogether (a bare remove_constraint, nothing added afterwards)
+                    sim.network.remove_constraint(victim)
+                    names2 = [x for x in names if x != victim]
+                    out.probe("requery_after_remove_constraint")
+                else:
+                    sim.network.update_constraint(victim, sut.Current(dict(by[victim]["coeffs"])), by[victim]["limit"] * 1.5)
+                    names2 = [x for x in names if x != victim] + [victim]
                 out.probe("requery_after_update_constraint")
                 if list(sim.network.constraint_index) != names2:
                     out.inconclusive += 1     # row order after an update is not part of the property
